@@ -11,7 +11,7 @@ META = {
         "state is rewritten before returning; R2 tag tables: per codec pair, the tag an encoder writes for a variant is a tag the decoder maps "
         "back to that variant, and unknown tags end in Err; R4 tainted length arithmetic: a 64-bit length read from the wire never enters an "
         "unchecked +,* or - nor a split/advance length without a dominating bound (a corrupt length must give an error, not a panic); "
-        "R5 panic audit of the decode bodies; R6 discard accounting: when a decoder drops the buffered part of a body it measures the dropped size before clearing the buffer; R7 bytes split off for the following frames are put back on every exit; R8 a delegating decoder waits for a header only at a frame boundary; R9 a size test against a length read through a peek cursor is made on the cursor or adds the peeked header size."),
+        "R5 panic audit of the decode bodies; R6 discard accounting: when a decoder drops the buffered part of a body it measures the dropped size before clearing the buffer; R7 bytes split off for the following frames are put back on every exit; R8 a delegating decoder waits for a header only at a frame boundary; R9 a size test against a length read through a peek cursor is made on the cursor or adds the peeked header size; R10 abandoning a frame on an error skips every outstanding part recorded in the state."),
     "does_not_decide": "equality of decoded and encoded messages for all values (bodies are Recon, C09); silently wrong messages produced by mutated valid streams inside a body",
 }
 
@@ -533,6 +533,49 @@ def run(ctx):
                     k_ += 1
         if n < 6:
             raise AnchorMissing("expected >= 6 size tests against wire lengths, found %d" % n)
+
+    with ctx.rule("C10.R10", "T7", "an error in the middle of a frame skips everything the frame still has to deliver", floor=3) as r:
+        # A decoder state that records several outstanding byte counts (e.g. the rest of the key *and* the size of the value that
+        # follows) must skip all of them when it abandons the frame; otherwise the unskipped part is parsed as the next header.
+        n = 0
+        for c, b in decs:
+            tag = (b.meta.get("self_adt") or "?").split("::")[-1]
+            st = None
+            for sb in range(b.n):
+                if b.is_cleanup(sb) or b.term(sb)["k"] != "switch":
+                    continue
+                si = b.switch_info(sb)
+                if si and si.get("kind") == "disc" and switch_desc(b, sb) in ("disc(self.state)", "disc(take(self.state))") and si.get("adt"):
+                    st = si["adt"]
+                    break
+            if not st:
+                continue
+            try:
+                adt = c.adt(st.split("::", 1)[1] if st.startswith(c.name + "::") else st)
+            except Exception:
+                continue
+            sizes = {v["name"]: [f[0] for f in v["fields"] if f[1] in ("usize", "core::option::Option<usize>", "u64")] for v in adt["variants"]}
+            for i, j, p, rv, line in b.assigns():
+                if rv[0] != "agg" or not rv[1].get("adt", "").endswith(st.split("::")[-1]) or rv[1].get("variant") != "Discarding":
+                    continue
+                arm = [l for d, l, _ in dom_guards(b, i) if d in ("disc(self.state)", "disc(take(self.state))")]
+                if not arm or arm[0] == "Discarding":
+                    continue
+                held = sizes.get(arm[0], [])
+                fields = rv[1]["fields"]
+                amt = describe_operand(b, rv[2][fields.index("remaining")]) if "remaining" in fields else ""
+                missing = [f for f in held if ("<%s>.%s" % (arm[0], f)) not in amt]
+                n += 1
+                r.check(not missing, "%s/%s/discard-covers-all-outstanding-parts" % (tag, arm[0]), b.loc(line), "the amount to discard is computed from %s" % (held or ["remaining"]),
+                        "on an error in state %s the decoder discards `%s`, which ignores %s held in that state: those bytes stay in the stream and are read as the next frame's header" % (arm[0], amt[:70], missing))
+                # the sibling "enough buffered: skip now" branch must skip the same amount
+                adv = [x for x in b.calls if x.name == "advance" and any(d in ("disc(self.state)", "disc(take(self.state))") and l == arm[0] for d, l, _ in dom_guards(b, x.block)) and any(l == "Err" for d, l, _ in dom_guards(b, x.block))]
+                for x in adv if len(held) >= 2 else []:
+                    a = describe_operand(b, x.args[1])
+                    miss2 = [f for f in held if ("<%s>.%s" % (arm[0], f)) not in a]
+                    r.check(not miss2, "%s/%s/skip-now-covers-all-outstanding-parts" % (tag, arm[0]), x.loc(), "advance(%s)" % a[:60], "on an error in state %s the decoder advances by `%s`, ignoring %s" % (arm[0], a[:70], miss2))
+        if n < 3:
+            raise AnchorMissing("expected >= 3 error exits into a Discarding state, found %d" % n)
 
 
 def _short(d):
